@@ -163,7 +163,7 @@ func checkC12(c *Ctx) {
 							}
 						}
 						isOwn := func(v ssa.Value) bool {
-							cv, ok := v.(*ssa.Call)
+							cv, ok := core.Strip(resolveCell(p, v)).(*ssa.Call)
 							return ok && core.CallOf(cv).Is(sid)
 						}
 						fromLookup := func(v ssa.Value) bool {
@@ -391,7 +391,15 @@ func checkC13(c *Ctx) {
 			}
 			arms := map[string]int{}
 			bad := ""
-			for _, b := range disp.Blocks {
+			// the dispatcher and the per-packet-type helpers its arms hand the work to
+			var bodies []*ssa.BasicBlock
+			for _, g := range c.funcsDeepStop(disp, 2, func(g *ssa.Function) bool { return g.Pkg != disp.Pkg }) {
+				if g.Parent() != nil {
+					continue
+				}
+				bodies = append(bodies, g.Blocks...)
+			}
+			for _, b := range bodies {
 				for _, in := range b.Instrs {
 					st, ok := in.(*ssa.Store)
 					var v ssa.Value
@@ -409,10 +417,12 @@ func checkC13(c *Ctx) {
 						continue
 					}
 					arm := "?"
-					for _, cc := range controllingConds(b, nil) {
-						if ex, ok := cc.cond.(*ssa.Extract); ok && ex.Index == 1 && cc.pol {
-							if ta, ok := ex.Tuple.(*ssa.TypeAssert); ok && pktIdx >= 0 && same(ta.X, disp.Params[pktIdx]) {
-								arm = types.TypeString(ta.AssertedType, func(p *types.Package) string { return p.Name() })
+					for _, at := range c.liftTo(disp, in) {
+						for _, cc := range controllingConds(at.Block(), nil) {
+							if ex, ok := cc.cond.(*ssa.Extract); ok && ex.Index == 1 && cc.pol {
+								if ta, ok := ex.Tuple.(*ssa.TypeAssert); ok && pktIdx >= 0 && same(ta.X, disp.Params[pktIdx]) {
+									arm = types.TypeString(ta.AssertedType, func(p *types.Package) string { return p.Name() })
+								}
 							}
 						}
 					}
